@@ -189,6 +189,15 @@ func keyOf(n int, binary bool) string {
 			b[(i*37)%n] = special[i]
 		}
 	}
+	if !binary && n >= 16 {
+		// text keys may hold any byte but blanks and control characters; bytes above 0x7f are legal,
+		// also where they spell a Unicode blank (no-break space, ideographic space, next line, line
+		// separator): tokenising must be by the ASCII space only
+		copy(b[3:], "\xc2\xa0")
+		copy(b[6:], "\xe3\x80\x80")
+		copy(b[10:], "\xc2\x85")
+		copy(b[n-4:], "\xe2\x80\xa8")
+	}
 	return string(b)
 }
 
@@ -412,17 +421,22 @@ func fullStackSegments(c *rt.Ctx, item *int) {
 		if !bin {
 			big = strings.Repeat("segmented-value ", 20)
 		}
+		kc := "c"
+		if !bin {
+			kc = "c\xe3\x80\x80d\xc2\xa0e" // one key: the bytes of two Unicode blanks inside it
+		}
 		ops := []wire.Op{
 			{Kind: "set", Key: "user:1234:profile", Val: "hello-world-value", Flags: 0xCAFEF00D, TTL: 3600},
 			{Kind: "get", Key: "user:1234:profile"},
 			{Kind: "set", Key: "b", Val: big, Flags: 7},
 			{Kind: "mget", Keys: []string{"user:1234:profile", "nope", "b"}, Quiet: []bool{bin, bin, false}},
 			{Kind: "append", Key: "b", Val: "-tail"},
-			{Kind: "add", Key: "c", Val: "v", Flags: 1, TTL: 100},
+			{Kind: "add", Key: kc, Val: "v", Flags: 1, TTL: 100},
 			{Kind: "touch", Key: "user:1234:profile", TTL: 100},
-			{Kind: "replace", Key: "c", Val: "w", Flags: 2},
+			{Kind: "replace", Key: kc, Val: "w", Flags: 2},
 			{Kind: "delete", Key: "b"},
-			{Kind: "get", Key: "c"},
+			{Kind: "get", Key: kc},
+			{Kind: "mget", Keys: []string{kc, "c", "d"}, Quiet: []bool{bin, bin, false}},
 		}
 		if bin {
 			ops = append(ops[:2:2], append([]wire.Op{{Kind: "gat", Key: "user:1234:profile", TTL: 50}}, ops[2:]...)...)
